@@ -103,9 +103,9 @@ def PortEv (s : KS) : PPhase → Prop
 
 def SrcEv (s : KS) : SPhase → Prop
   | .init q arr => q.ev = 3 ∧ EvIs s 3 (.init 2) [.resume 2] (some (.ok .none)) ∧
-      s.proc? 2 = some { st := .src none arr, target := some 3 }
+      s.proc? 2 = some { st := .src none arr, target := some 3 } ∧ EvIs s 2 .proc [] none
   | .wait id rest q => EvIs s q.ev .timeout [.resume 2] (some (.ok .none)) ∧
-      s.proc? 2 = some { st := .src (some id) rest, target := some q.ev }
+      s.proc? 2 = some { st := .src (some id) rest, target := some q.ev } ∧ EvIs s 2 .proc [] none
   | .ending q => q.ev = 2 ∧ EvIs s 2 .proc [] (some (.ok .none))
   | .done => True
 
